@@ -140,6 +140,32 @@ def chains(run, base):
     return out
 
 
+def placements(run):
+    """(source, [(vector type or component count, mask), ...]): the verdict must be the conjunction of the rule on every selection"""
+    rng = run.rng
+    out = []
+    one = list("xyzwrgba")
+    two = ["".join(m) for m in itertools.product("xyzw", repeat=2)] + ["rg", "ba", "ar", "xg"]
+    for vt in ("float2", "float3", "float4"):
+        n = PRIM[vt][2]
+        for m in (two if run.tier == "thorough" else rng.sample(two, 10)):
+            for o in (one if run.tier == "thorough" else rng.sample(one, 4)):
+                # a selection of a selection: the outer mask is checked against the inner result (len(m) components)
+                out.append(("function f(%s v) -> int { v.%s.%s; return 0; }" % (vt, m, o), [(vt, m), (len(m), o)]))
+            out.append(("function f(%s v) -> int { v.%s = v.%s; return 0; }" % (vt, m, m), [(vt, m), (vt, m)]))
+            out.append(("function h(float4 u) -> int { u.%s; return 0; }\nfunction f(%s v) -> int { v.%s; return 0; }" % (m, vt, m), [("float4", m), (vt, m)]))
+            out.append(("function f(%s v, float4 u) -> int { u.%s; v.%s; return 0; }" % (vt, m, m), [("float4", m), (vt, m)]))
+        for m1 in one:
+            out.append(("function g(float a) -> float { return a; }\nfunction f(%s v) -> float { return g(v.%s); }" % (vt, m1), [(vt, m1)]))
+            out.append(("function f(%s v) -> int { if (v.%s > 0.0) { return 1; } return 0; }" % (vt, m1), [(vt, m1)]))
+            out.append(("function f(%s v, float[4] t) -> float { return t[1] + v.%s * v.x; }" % (vt, m1), [(vt, m1)]))
+            out.append(("function f(%s v) -> int { for (int i = 0; i < 2; ++i) { v.%s = 1.0; } return 0; }" % (vt, m1), [(vt, m1)]))
+    for m1 in one:
+        out.append(("function f(int3 k, float[4] t) -> float { return t[k.%s]; }" % m1, [("int3", m1)]))
+        out.append(("function f(int3 k, float4 v) -> float { return v[k.%s]; }" % m1, [("int3", m1)]))
+    return out
+
+
 def explore(run, widen=1):
     implrun.load()
     d = common.Driver()
@@ -158,8 +184,30 @@ def explore(run, widen=1):
             if vt == "int3" and run.tier != "thorough" and len(m) > 2: continue
             src = "function f(%s v) -> int { v.%s; return 0; }" % (vt, m)
             cases.append(("swz", vt, m, src, "static swz %s %s" % (":".join(str(x) for x in PRIM[vt]), m)))
+    # the same selections in other PLACES: inside another selection, inside an index, as call argument, assignment target,
+    # condition, operand, in a second function after a valid use of the same mask on a wider type
+    places = placements(run)
+    def mty(vt):
+        if vt in PRIM: return ":".join(str(x) for x in PRIM[vt])
+        return "s:float" if vt == 1 else "v:float:%d" % vt
+    pans = d.ask_many(["static swz %s %s" % (mty(vt), m) for _, sels in places for vt, m in sels])
     ans = d.ask_many([c[4] for c in cases])
     d.close()
+    k = 0
+    for src, sels in places:
+        model = "accept"
+        for vt, m in sels:
+            if pans[k] != "accept": model = "reject"
+            k += 1
+        want = "accept" if all(spec_mask(PRIM[vt][2] if vt in PRIM else vt, m) == "accept" for vt, m in sels) else "reject"
+        got = frontend(src)
+        if got == "syntax-error": raise common.Infra("does not parse: " + src)
+        run.case(("place", src), nontrivial=True, sample=dict(source=src, verdict=got) if (len(run.samples) < 3 and want == "reject" and ".x;" in src) else None)
+        run.count("place:" + got)
+        inp = dict(source=src, expected=want)
+        if model != got: run.mismatch("place", inp, model, got)
+        if got != want:
+            run.fail("place", inp, "%s is %sed, the rule applied to every selection in it says %s" % (src, got, want), key="place:" + ("accepts" if got == "accept" else "rejects"))
     for (kind, a, b, src, line), model in zip(cases, ans):
         got = frontend(src)
         if got == "syntax-error":
